@@ -1,4 +1,5 @@
 import Proofs.Options
+import Proofs.OptionsRefl
 /-!
 # C11 — ignore / tolerance options only remove differences and never make DeepDiff fail
 
@@ -92,6 +93,19 @@ example : sim { ignoreStrType := true } (.list [.tuple [.str "x", .none], .str "
   have h2 := (C11_strtype_leaf { ignoreStrType := true } "y" rfl).1
   have h3 : sim { ignoreStrType := true } .none .none = true := sim_of_leafSame _ rfl (by simp [sameGroup, typeName]) rfl
   simp [sim, simL, skipTypes, h1, h2, h3]
+
+/-- **A copy is never different, whatever the options** (the first half of "options only remove differences", for equal
+inputs listed in the same order): for every option set, threshold, alignment oracle and every well-formed value of any size
+and nesting -- dictionaries whose keys collide under a key-cleaning option included -- the diff of a value with itself is empty.
+`Proofs/OptionsRefl.lean`: the table of cleaned keys has pairwise different cleaned keys by construction (`cleanKeys_inv`), so
+each surviving key is looked up to its own entry (`find_own`) and its own value (`dictGet_of_keyEq`). -/
+theorem C11_copy_empty_all_options (o : OCfg) (al : Align) (hc : o.base.thrNum ≤ o.base.thrDen) (t : PyVal) (hw : wf t = true) :
+    (deepDiff o al t t).tree = [] ∧ (deepDiff o al t t).opcodes = [] :=
+  C11_similar_empty o al hc t t (sim_refl o t hw)
+
+/-- the hypothesis is met by a dictionary with colliding cleaned keys (the input class of F50), nested in a list -/
+example : wf (.list [.dict [(.str "A", .int 1), (.str "a", .list [.float 25 1])], .set [.int 1, .str "x"]]) = true := by
+  simp [wf, wfL, wfP, hashable, distinctKeys, keyEq, numEq, numOf]
 
 /-- **Negative witness (finding F50).** Two keys of one dictionary whose cleaned forms collide are represented by the
 first in insertion order: the same dictionary re-inserted in the other order is compared through the other key. -/
